@@ -248,6 +248,13 @@ Qed.
 
 (* a non-LEA instruction with a memory operand whose BASE register reads 0: recognised as null pointer
    plus offset, so neither the address pass nor the register pass reports anything *)
+Lemma oa_addresses_in oa l ai : oa_accesses oa = Some l -> In ai l ->
+  exists l', oa_addresses oa = Some l' /\ In ai l'.
+Proof.
+  intros Hl Hin. unfold oa_addresses. rewrite Hl. eexists. split; [reflexivity|].
+  destruct (oa_ip oa) as [[u|]|]; try exact Hin. apply in_or_app. left. exact Hin.
+Qed.
+
 Lemma null_base_no_flips di pc c os r address rs m b :
   di_lea di = false -> di_memsize di = true ->
   (forall m', In m' (di_ops di) -> operand_address pc m' <> None) ->
@@ -259,10 +266,28 @@ Proof.
   destruct (sequence_some (map (operand_address pc) (di_ops di))) as [l Hl].
   { intros o Ho. apply in_map_iff in Ho. destruct Ho as [m' [<- Hm']]. apply Hall. exact Hm'. }
   eapply pipeline_none_null; [reflexivity|].
-  exists l, ai. unfold oa_addresses, analyze_dinstr. cbn [oa_accesses oa_ip].
-  rewrite Hlea, Hms. cbn [negb orb]. rewrite Hl. split; [reflexivity|]. split.
-  - eapply sequence_in; [exact Hl|]. rewrite <- Eo. apply in_map. exact Hin.
-  - apply (operand_address_spec pc m ai Eo). exists b. split; assumption.
+  assert (Hai : In ai l) by (eapply sequence_in; [exact Hl|]; rewrite <- Eo; apply in_map; exact Hin).
+  destruct (oa_addresses_in
+              {| oa_accesses := Some (l ++ implicit_access (di_implicit di) pc); oa_ip := ip_of (di_ip di) pc;
+                 oa_regs := instr_regs (di_ops di) |} _ ai eq_refl (in_or_app _ _ _ (or_introl Hai))) as [l' [Hl' Hin']].
+  exists l', ai. split.
+  - unfold analyze_dinstr, explicit_accesses. rewrite Hlea, Hms, Hl. cbn [negb option_map]. exact Hl'.
+  - split; [exact Hin'|]. apply (operand_address_spec pc m ai Eo). exists b. split; assumption.
+Qed.
+
+(* a call / jmp through a register that reads 0 (memory accesses determined): the target is flagged, the
+   access is recognised as a null pointer (offset 0) and nothing is reported *)
+Lemma null_target_no_flips di pc c os r address rs id :
+  di_ip di = IpkReg id -> get_register pc id = Some 0 ->
+  (di_memsize di = true -> explicit_accesses di pc <> None) ->
+  pipeline (analyze_dinstr di) c os r address (Some pc) rs = [].
+Proof.
+  intros Hip Hg Hex. eapply pipeline_none_null; [reflexivity|].
+  unfold has_null_flag, oa_addresses, analyze_dinstr. cbn [oa_accesses oa_ip]. rewrite Hip. cbn [ip_of]. rewrite Hg. cbn [option_map].
+  destruct (di_memsize di); cbn [negb].
+  - destruct (explicit_accesses di pc) as [l|]; [|exfalso; apply Hex; reflexivity]. cbn [option_map].
+    eexists; exists (plain_info 0). split; [reflexivity|]. split; [apply in_or_app; right; left; reflexivity|reflexivity].
+  - eexists; exists (plain_info 0). split; [reflexivity|]. split; [left; reflexivity|reflexivity].
 Qed.
 
 (* every register examined by the register pass is the base or index register of a memory operand *)
@@ -324,3 +349,106 @@ Proof.
   destruct (Z.eq_dec arch 32771) as [->|H3]; [right; reflexivity|].
   left. intros Hw. apply arch_width64 in Hw. lia.
 Qed.
+
+(* ------------------------------------------------------------ the property in plain arithmetic on the stream records *)
+Definition u64_recs (l : list (Z * Z * Z)) : Prop :=
+  Forall (fun e => 0 <= fst (fst e) < two64 /\ 0 <= snd (fst e) < two64) l.
+
+Lemma wf_regions_info l : u64_recs l -> wf_regions (regions_of_info l).
+Proof.
+  unfold u64_recs, wf_regions, regions_of_info. induction 1 as [|[[a b] p] t [Ha Hb] _ IH]; cbn [map]; constructor; [|exact IH].
+  cbn [fst snd] in Ha, Hb. unfold region_of_info. cbn [rg_range].
+  destruct (mk_range a b) as [r|] eqn:E; [|exact I]. eapply mk_range_wf; [| |exact E]; lia.
+Qed.
+
+Lemma wf_regions_maps l : u64_recs l -> wf_regions (regions_of_maps l).
+Proof.
+  unfold u64_recs, wf_regions, regions_of_maps. induction 1 as [|[[a b] p] t [Ha Hb] _ IH]; cbn [map]; constructor; [|exact IH].
+  cbn [fst snd] in Ha, Hb. unfold region_of_map. cbn [rg_range].
+  destruct (mk_range_maps a b) as [r|] eqn:E; [|exact I]. eapply mk_range_maps_wf; [| |exact E]; lia.
+Qed.
+
+(* the permission an operation asks of a MINIDUMP_MEMORY_INFO protection word / of a maps line *)
+Definition info_allows (op : memop) (prot : Z) : bool :=
+  match op with Undetermined => true | MRead => prot_r prot | MWrite => prot_w prot | MExec => prot_x prot end.
+Definition maps_allows (op : memop) (p : Z) : bool :=
+  match op with Undetermined => true | MRead => Z.testbit p 2 | MWrite => Z.testbit p 1 | MExec => Z.testbit p 0 end.
+
+Lemma flip_in_info_record l op x mi :
+  In mi (regions_of_info l) -> (exists r, rg_range mi = Some r /\ contains r x = true) -> possibly_allowed op mi = true ->
+  exists base size prot, In (base, size, prot) l /\ size <> 0 /\ base + size < two64 /\
+                         base <= x < base + size /\ info_allows op prot = true.
+Proof.
+  unfold regions_of_info. intros Hin [r [Hr Hc]] Hp. apply in_map_iff in Hin. destruct Hin as [[[a b] p] [<- Hin]].
+  exists a, b, p. split; [exact Hin|]. unfold region_of_info in *. cbn [rg_range] in Hr.
+  unfold mk_range, checked_add in Hr. destruct (b =? 0) eqn:E0; [discriminate|].
+  destruct (a + b <? 2 ^ 64) eqn:E1; [|discriminate]. inversion Hr; subst r.
+  unfold contains in Hc. cbn [fst snd] in Hc. apply andb_prop in Hc. destruct Hc as [C1 C2].
+  rewrite two64_val. repeat split; try lia.
+  destruct op; cbn in Hp |- *; exact Hp.
+Qed.
+
+Lemma flip_in_maps_record l op x mi :
+  In mi (regions_of_maps l) -> (exists r, rg_range mi = Some r /\ contains r x = true) -> possibly_allowed op mi = true ->
+  exists lo hi p, In (lo, hi, p) l /\ lo <= x <= hi /\ maps_allows op p = true.
+Proof.
+  unfold regions_of_maps. intros Hin [r [Hr Hc]] Hp. apply in_map_iff in Hin. destruct Hin as [[[a b] p] [<- Hin]].
+  exists a, b, p. split; [exact Hin|]. unfold region_of_map in *. cbn [rg_range] in Hr.
+  unfold mk_range_maps in Hr. destruct (a >? b) eqn:E0; [discriminate|]. inversion Hr; subst r.
+  unfold contains in Hc. cbn [fst snd] in Hc. apply andb_prop in Hc. destruct Hc as [C1 C2].
+  split; [lia|]. destruct op; cbn in Hp |- *; exact Hp.
+Qed.
+
+Lemma flip_ok_mapped rs op a reg lo hi f :
+  wf_regions rs -> flip_ok a reg rs op lo hi f ->
+  f_addr f = 0 \/ exists mi, In mi rs /\ (exists r, rg_range mi = Some r /\ contains r (f_addr f) = true) /\ possibly_allowed op mi = true.
+Proof.
+  intros Hwf [_ [[H0|[mi [Hl Ha]]] _]]; [left; exact H0|right].
+  destruct (lookup_region_sound rs _ mi Hwf Hl) as [Hin Hr]. exists mi. repeat split; assumption.
+Qed.
+
+Section EndToEnd.
+  Variable analysis : pcontext -> option op_analysis.
+
+  (* the whole property for one flip, on the records of a MemoryInfoList stream *)
+  Lemma pipeline_flip_info c os r address pc l f :
+    u64_recs l -> 0 <= address < two64 ->
+    (forall x id v, pc = Some x -> get_register x id = Some v -> 0 <= v < two64) ->
+    (forall x oa ai, analysis x = Some oa -> (exists a, oa_addresses oa = Some a /\ In ai a) -> 0 <= ai_addr ai < two64) ->
+    In f (pipeline analysis c os r address pc (regions_of_info l)) ->
+    exists a j, examined_by analysis c os r address pc f a /\
+                br_lo (pipeline_br analysis c os r address pc) <= j < br_hi (pipeline_br analysis c os r address pc) /\
+                f_addr f = Z.lxor a (2 ^ j) /\ 0 <= f_addr f < two64 /\
+                (f_addr f = 0 \/
+                 exists base size prot, In (base, size, prot) l /\ size <> 0 /\ base + size < two64 /\
+                                        base <= f_addr f < base + size /\ info_allows (memop_of_reason r) prot = true).
+  Proof.
+    intros Hl Haddr Hregs Hacc Hin. pose proof (pipeline_examined analysis c os r address pc _ f Hin) as [Hw [Hna [Hnn [a [Hex Hok]]]]].
+    pose proof Hok as [[j [Hj Hf]] _]. exists a, j. split; [exact Hex|]. split; [exact Hj|]. split; [exact Hf|].
+    assert (Ha : 0 <= a < two64).
+    { destruct Hex as [[_ Ha]|[id [x [oa [_ [Hpc [_ [_ Hg]]]]]]]]; [|eapply Hregs; eassumption].
+      subst a. destruct (pipeline_adj analysis c os r address pc) as [|v|off] eqn:E; try exact Haddr.
+      unfold pipeline_adj in E. pose proof (adjusted_sound c os r address (the_analysis analysis pc)) as S. rewrite E in S.
+      destruct S as [_ [_ [o [la [ai [Ho [Hla [Hi [Hv _]]]]]]]]]. subst v.
+      unfold the_analysis in Ho. destruct pc as [x|]; [|discriminate]. eapply Hacc; [exact Ho|]. exists la. split; assumption. }
+    split.
+    { rewrite Hf. apply lxor_pow2_u64; [exact Ha|]. pose proof (br_bounds_in_64 (pipeline_br analysis c os r address pc)). lia. }
+    destruct (flip_ok_mapped _ _ _ _ _ _ _ (wf_regions_info l Hl) Hok) as [H0|[mi [Hmi [Hr Hp]]]]; [left; exact H0|right].
+    eapply flip_in_info_record; eassumption.
+  Qed.
+
+  Lemma pipeline_flip_maps c os r address pc l f :
+    u64_recs l ->
+    In f (pipeline analysis c os r address pc (regions_of_maps l)) ->
+    exists a j, examined_by analysis c os r address pc f a /\
+                br_lo (pipeline_br analysis c os r address pc) <= j < br_hi (pipeline_br analysis c os r address pc) /\
+                f_addr f = Z.lxor a (2 ^ j) /\
+                (f_addr f = 0 \/
+                 exists lo hi p, In (lo, hi, p) l /\ lo <= f_addr f <= hi /\ maps_allows (memop_of_reason r) p = true).
+  Proof.
+    intros Hl Hin. pose proof (pipeline_examined analysis c os r address pc _ f Hin) as [Hw [Hna [Hnn [a [Hex Hok]]]]].
+    pose proof Hok as [[j [Hj Hf]] _]. exists a, j. split; [exact Hex|]. split; [exact Hj|]. split; [exact Hf|].
+    destruct (flip_ok_mapped _ _ _ _ _ _ _ (wf_regions_maps l Hl) Hok) as [H0|[mi [Hmi [Hr Hp]]]]; [left; exact H0|right].
+    eapply flip_in_maps_record; eassumption.
+  Qed.
+End EndToEnd.
